@@ -55,6 +55,18 @@ def universe():
     for name in sorted(designs.all_designs()):
         for cfg in ("default", "jcl", "endlabels"):
             jobs.append(("gen:" + name, cfg, ""))
+    for name in ("tight_spacing", "comments_between", "enum_chars"):
+        for cfg in ("spaces_gt0", "spaces_ge0", "spaces_0plus"):
+            jobs.append(("gen:" + name, cfg, ""))
+    # option values and skip lists: every generated design, and a fixed slice of the corpus
+    for name in sorted(designs.all_designs()):
+        for cfg in ("align_a", "align_b", "smart_tabs", "skip1", "caseonly"):
+            jobs.append(("gen:" + name, cfg, ""))
+    for f in files[::9]:
+        for cfg in ("align_a", "skip1", "caseonly"):
+            jobs.append((f, cfg, ""))
+    for f in files:
+        jobs.append((f, "default", "split"))
     return jobs
 
 
@@ -67,7 +79,7 @@ def plan(tier, seed):
     for j in uni:
         by.setdefault((j[1], j[2]), []).append(j)
     out = []
-    for key, n in ((("default", ""), 110), (("jcl", ""), 14), (("upper", ""), 14), (("default", "pre"), 24), (("default", "comments"), 24)):
+    for key, n in ((("default", ""), 110), (("jcl", ""), 14), (("upper", ""), 14), (("default", "pre"), 24), (("default", "comments"), 24), (("default", "split"), 24), (("align_a", ""), 8), (("skip1", ""), 8), (("caseonly", ""), 8)):
         out.extend(r.sample([j for j in by[key] if not j[0].startswith("gen:")], n))
     out.extend(j for j in uni if j[0].startswith("gen:"))
     return sorted(out)
